@@ -103,3 +103,26 @@ Definition polling_wait_retry : list string := ["EINTR"].
    current pkg/netpoll in the cfg line of every case *)
 Definition default_thr : Z := 1024.
 Definition default_maxlow : Z := 256.
+
+(* every request the library queues on a poller, with the priority it asks for (file, function, priority),
+   in source order; the model's apply_async / trigger calls use these (Proofs/LoopPioSpec.v) *)
+Definition trigger_priorities : list (string * string * string) := [
+  ("connection_unix.go", "conn.AsyncWrite", "HighPriority");
+  ("connection_unix.go", "conn.AsyncWritev", "HighPriority");
+  ("connection_unix.go", "conn.Wake", "LowPriority");
+  ("connection_unix.go", "conn.CloseWithCallback", "LowPriority");
+  ("connection_unix.go", "conn.Close", "LowPriority");
+  ("eventloop_unix.go", "eventloop.Execute", "LowPriority");
+  ("eventloop_unix.go", "eventloop.enroll", "LowPriority");
+  ("eventloop_unix.go", "eventloop.read", "LowPriority");
+  ("eventloop_unix.go", "eventloop.write", "HighPriority");
+  ("eventloop_unix.go", "eventloop.ticker", "LowPriority");
+  ("acceptor_unix.go", "eventloop.accept0", "HighPriority");
+  ("client_unix.go", "Client.Stop", "HighPriority");
+  ("client_unix.go", "Client.EnrollContext", "HighPriority")].
+
+Definition is_low_of (fn : string) : bool :=
+  match find (fun x => String.eqb (snd (fst x)) fn) trigger_priorities with
+  | Some (_, _, p) => String.eqb p "LowPriority"
+  | None => false
+  end.
